@@ -338,6 +338,29 @@ def trim_cases(seed, count, repo_import, ai_mod, pysam, hdr):
                 if va != vb:
                     out["viol"].append(("hard-clip-changes-result", cigar_str(cigar), a.reference_start,
                                         "with hard clips: exons %s tails %s; without: exons %s tails %s" % (va[0], va[2], vb[0], vb[2]), ""))
+            # padding invariance: 80 soft-clipped C/G bases appended at an end that carries neither a tail nor a clip change nothing
+            # (the tail search windows of the OTHER end must not depend on the length of the read)
+            for side in ("right", "left"):
+                has_clip = plain_cigar[-1][0] == 4 if side == "right" else plain_cigar[0][0] == 4
+                end_kind = pieces[-1][0] if side == "right" else pieces[0][0]
+                if has_clip or end_kind != "R" or hard_left or hard_right:
+                    continue
+                pad = "CG" * 40
+                c = pysam.AlignedSegment(hdr)
+                c.query_name = a.query_name
+                c.reference_id = 0
+                c.reference_start = a.reference_start
+                c.cigartuples = (plain_cigar + [(4, 80)]) if side == "right" else ([(4, 80)] + plain_cigar)
+                c.query_sequence = (a.query_sequence + pad) if side == "right" else (pad + a.query_sequence)
+                i1, i2 = ai_mod.AlignmentInfo(a), ai_mod.AlignmentInfo(c)
+                i1.add_polya_info(pf.PolyAFinder(16, 0.75), pv.PolyAFixer(SimpleNamespace(max_fake_terminal_exon_len=max_fake)))
+                i2.add_polya_info(pf.PolyAFinder(16, 0.75), pv.PolyAFixer(SimpleNamespace(max_fake_terminal_exon_len=max_fake)))
+                v1 = (i1.read_exons, [getattr(i1.polya_info, nm_) for nm_ in POS_NAMES])
+                v2 = (i2.read_exons, [getattr(i2.polya_info, nm_) for nm_ in POS_NAMES])
+                out["padding_pairs"] = out.get("padding_pairs", 0) + 1
+                if v1 != v2:
+                    out["viol"].append(("soft-clip-padding-changes-result:" + side, cigar_str(plain_cigar), a.reference_start,
+                                        "as is: exons %s tails %s; with 80 padded bases at the %s end: exons %s tails %s" % (v1[0], v1[1], side, v2[0], v2[1]), ""))
             info = ai_mod.AlignmentInfo(a)
             ex0, rb0, cb0 = list(info.read_exons), list(info.read_blocks), list(info.cigar_blocks)
             inject = rng.random() < 0.35
@@ -515,6 +538,7 @@ def run(chk, scratch):
             ai += res.get("ai", 0)
             trimmed += res.get("trimmed", 0)
             chk.count("hard_clip_pairs_compared", res.get("hard_clip_pairs", 0))
+            chk.count("padding_pairs_compared", res.get("padding_pairs", 0))
             for k, v in res.get("classes", {}).items():
                 classes[k] = classes.get(k, 0) + v
             for k, v in res.get("trim_classes", {}).items():
